@@ -6,10 +6,14 @@ Driver glue for the `Finger` domain.
     finger.globs <n> (<neg> <k> <path>{k}){n}                         → <path>* | -
     finger.hist  <nPaths> (<pathHex> <dir>){nPaths} <nDirs> <dirLen>{nDirs} <nTasks> <task>{nTasks} <nSteps> <step>{nSteps}
         pathHex: the slash path relative to the project root;  dirLen: length of `<dir>/` for task directory 0, 1, …
-        task := <nameHex> <labelHex> <method> <prompt> <dir> <pats> <pats> <k> <path>{k} <nCmds> (<k> (<path> <contentHex>){k} <need>){nCmds}
+        task := <nameHex> <labelHex> <method> <prompt> <dir> <ignoreError> <pats> <pats> <k> <guardedGen>{k} <k> <path>{k} <nCmds> (<k> (<path> <contentHex>){k} <need> <ignoreError>){nCmds}
+          guardedGen: indices of the generates entries written `${G:?}…` (method checksum only)
         pats := <n> (<neg> <k> <path>{k}){n}
-        step := I <task> <mode> <now> <yes> <fail> <kill> | W <path> <contentHex> <mtime> | T <path> <mtime>
+        step := I <task> <mode> <now> <yes> <fail> <kill> <cancelled> <gset> <twin> | W <path> <contentHex> <mtime> | T <path> <mtime>
               | D <path> | M <path> <path> | R <dir>
+      twin: 1 = a second activation of the task checks while the first is inside its first command (`twinUp`: s=1 if it is reported up to date);
+      gset: 1 = the environment variable G is set (entries `${G:?}…` can be expanded); exit `code1` = the check returned an error;
+      cancelled: 1 = the run is cancelled by a failing sibling while the task's status commands run (`Env.cancelled`);
       dir / fail / kill / need: 0 = none, k+1 = some k (need = the path a `task:` call's precondition tests);  method: 0 checksum 1 timestamp 2 none;
       mode: 0 run 1 force 2 dry 3 status 4 list-json 5 list 6 summary
     answer: one segment per step joined by " | ":
@@ -51,12 +55,16 @@ def method : P Method := do
 def cmd : P Cmd := do
   let ws ← many (do let p ← nat; let c ← bytes; pure (p, c))
   let need ← optNat
-  pure ⟨ws, need⟩
+  let ign ← bool
+  pure ⟨ws, need, ign⟩
 
 def task : P Task := do
-  let name ← chars; let label ← chars; let m ← method; let prompt ← bool; let dir ← optNat
-  let srcs ← many pat; let gens ← many pat; let st ← many nat; let cmds ← many cmd
-  pure { name, label, method := m, sources := srcs, generates := gens, status := st, prompt, dir, cmds }
+  let name ← chars; let label ← chars; let m ← method; let prompt ← bool; let dir ← optNat; let ign ← bool
+  let srcs ← many pat; let gens ← many pat; let gg ← many nat; let st ← many nat; let cmds ← many cmd
+  -- `${G:?}…` entries are only interpreted for method checksum (`checkErr`)
+  if !gg.isEmpty && m != .checksum then failure
+  pure { name, label, method := m, sources := srcs, generates := gens, status := st, prompt, dir, cmds,
+         ignoreError := ign, gguard := gg }
 
 def mode : P Mode := do
   match ← nat with
@@ -67,8 +75,8 @@ def mode : P Mode := do
 def stepP : P Step := do
   match ← tok with
   | "I" => do
-    let i ← nat; let m ← mode; let now ← nat; let yes ← bool; let f ← optNat; let k ← optNat
-    pure (.inv i m ⟨now, yes, f, k⟩)
+    let i ← nat; let m ← mode; let now ← nat; let yes ← bool; let f ← optNat; let k ← optNat; let c ← bool; let g ← bool; let tw ← bool
+    pure (.inv i m ⟨now, yes, f, k, c, g, tw⟩)
   | "W" => do let p ← nat; let c ← bytes; let mt ← nat; pure (.op (.write p c mt))
   | "T" => do let p ← nat; let mt ← nat; pure (.op (.touch p mt))
   | "D" => do let p ← nat; pure (.op (.delete p))
@@ -109,6 +117,7 @@ def showState (s : State) : String :=
 
 def showExit : Exit → String
   | .ok => "ok" | .failed => "failed" | .notUpToDate => "notuptodate" | .cancelled => "cancelled" | .killed => "killed"
+  | .checkError => "code1"
 
 def showObs (o : Obs) : String :=
   s!"e={showExit o.exit} s={showBool o.skipped} r={joinOr "," (o.ran.map toString)} b={joinOr "," (o.bits.map showBool)}"
@@ -125,8 +134,10 @@ def render (pr : Proj) : List Step → State → List String
   | [], _ => []
   | st :: rest, s =>
     let r := step Cfg.fixed hId pr st s
+    -- (a second activation reported up to date prints the same message: `s=1` although commands ran)
+    let tw := match st with | .inv i .run e => twinUp hId pr i e s | _ => false
     let seg := match r.2 with
-      | some o => showObs o ++ " g=" ++ goodBit pr s st ++ " ; " ++ showState r.1
+      | some o => showObs { o with skipped := o.skipped || tw } ++ " g=" ++ goodBit pr s st ++ " ; " ++ showState r.1
       | none => showState r.1
     seg :: render pr rest r.1
 
